@@ -88,9 +88,15 @@ def build(term, dtype, leaves=None, requires_grad=False):
         return O.DiagLinearOperator(F(0))
     if cls == "ConstDiag":
         return O.ConstantDiagLinearOperator(F(0), diag_shape=ks[0])
+    implicit = getattr(build, "implicit_dtype", False) and dtype == torch.get_default_dtype()
     if cls == "Identity":
+        # (implicit: rely on the documented default "torch.get_default_dtype()" - only float32 is the signature default)
+        if implicit and dtype == torch.float32:
+            return O.IdentityLinearOperator(ks[0], batch_shape=torch.Size(ks[1:]))
         return O.IdentityLinearOperator(ks[0], batch_shape=torch.Size(ks[1:]), dtype=dtype)
     if cls == "Zero":
+        if implicit:
+            return O.ZeroLinearOperator(*ks)
         return O.ZeroLinearOperator(*ks, dtype=dtype)
     if cls == "Toeplitz":
         return O.ToeplitzLinearOperator(F(0))
